@@ -78,6 +78,25 @@ Print Assumptions C10_accessors_total.
 Example C10_parameter_count_needs_decode : r_parameter_count [] = APanic PIndex.
 Proof. exact parameter_count_needs_decode. Qed.
 
+(** the scalar typed accessor (keyValue with at least one default, as String / Uint / Float / Bool pass) is total on ANY KV: a value
+    of another type or a missing key yields the default *)
+Theorem C10_key_value_total : forall (T : Type) (proj : val -> option T) m key d ds, is_ok (key_value proj m key (d :: ds)) = true.
+Proof. exact @key_value_ok_default. Qed.
+Print Assumptions C10_key_value_total.
+
+(** the array accessors of the model-load path (KV.Strings / Uints / Floats) are NOT total on decoded files - the element type and
+    the array length come from the file, and arrays above maxArraySize have a size but no values - so this statement is refuted
+    (witness: tokenizer.ggml.tokens stored as an int32 array); they are total exactly when the array was collected and its elements
+    have the asserted type.  No create/show consumer calls them on /repo (monitored through the API on every consumed key). *)
+Definition C10_array_accessors_total_full : Prop := array_accessors_total_full.
+Theorem C10_array_accessors_total_refuted : ~ C10_array_accessors_total_full.
+Proof. exact array_accessors_total_refuted. Qed.
+Print Assumptions C10_array_accessors_total_refuted.
+Theorem C10_array_accessors_total_partial : forall (T : Type) (proj : val -> option T) m key,
+  collected_typed proj m key -> is_ok (arr_elems proj m key) = true.
+Proof. exact @arr_elems_partial. Qed.
+Print Assumptions C10_array_accessors_total_partial.
+
 (** non-vacuity: the three outcomes exist, and a file declaring a 2^40-element array / a 2^63 string length /
     alignment 0 is an error with a small meter *)
 Definition tiny_ok : list N := [71;71;85;70; 3;0;0;0; 0;0;0;0;0;0;0;0; 0;0;0;0;0;0;0;0].
